@@ -146,6 +146,7 @@ func checkC12(c *Check) {
 	}
 	c.Ob("R3", "reserve path evaluates the capacity predicate", run.Pos(), ra != nil && grantIf != nil, "")
 	c.commitLevelRoles("R3")
+	c.endpointCountSums("R3")
 	// value families of the loop-carried locals
 	resFam := valueFamily(run, func(v ssa.Value) bool {
 		p, ok := v.(*ssa.Parameter)
@@ -877,5 +878,52 @@ func (c *Check) configPlumbing(rule string) {
 	}
 	if n == 0 {
 		c.Info(rule, "no configuration field copies found in provider.NewService, plumbing not decided", ns.Pos(), "")
+	}
+}
+
+// endpointCountSums: the number of external ports a reservation needs is the sum over its resource entries: the counter
+// returned by reservationCountEndpoints is carried around the loop over the entries and each iteration ADDS to it. An
+// assignment keeps only the last entry's ports: a multi-service group is granted although the free ports do not
+// cover it.
+func (c *Check) endpointCountSums(rule string) {
+	l := c.L
+	fn := l.Func("provider/cluster", "", "reservationCountEndpoints")
+	if fn == nil {
+		c.Info(rule, "reservationCountEndpoints not found, port sum not decided", token.NoPos, "")
+		return
+	}
+	c.Analysed(fnName(fn))
+	decided := false
+	for _, b := range fn.Blocks {
+		r, ok := b.Instrs[len(b.Instrs)-1].(*ssa.Return)
+		if !ok || len(r.Results) != 1 {
+			continue
+		}
+		ph, isPhi := r.Results[0].(*ssa.Phi)
+		if !isPhi {
+			// returned straight from the loop header's phi, possibly through the exit block
+			if u, isU := r.Results[0].(*ssa.UnOp); isU {
+				_ = u
+			}
+			continue
+		}
+		if loopHeaderOf(ph.Block()) == nil {
+			continue
+		}
+		decided = true
+		sums := true
+		for _, e := range ph.Edges {
+			if k, isK := constInt(e); isK && k == 0 {
+				continue // initial value
+			}
+			bo, isBO := e.(*ssa.BinOp)
+			if !isBO || bo.Op != token.ADD || (bo.X != ssa.Value(ph) && bo.Y != ssa.Value(ph)) {
+				sums = false
+			}
+		}
+		c.Ob(rule, "the external ports of a reservation are summed over its resource entries", r.Pos(), sums, "the count returned is not the running sum: entries before the last one are not counted against the free external ports")
+	}
+	if !decided {
+		c.Info(rule, "reservationCountEndpoints: form of the count not recognised, sum not decided", fn.Pos(), "")
 	}
 }
